@@ -376,16 +376,46 @@ def r5(ctx):
     # files(): prune
     fl = repo.func("report", "files")
     loop, cbn = _outer_loop(repo, fl)
-    pr = [n for n in ast.walk(loop) if isinstance(n, ast.If) and u(n.test) == "prune"]
-    ok = len(pr) == 1
-    if ok:
-        b = u(pr[0].body)
-        ok = "platforms = set().union(*setmap.keys())" in b and "if len(platforms) == 0:\n    continue" in b
-    ctx.soft(ok, "report:files:prune", "--prune must skip exactly the files whose platform union is empty", fl.loc(loop))
-    insc = [c for c in ast.walk(loop) if isinstance(c, ast.Call) and u(c.func) == "tree.insert"]
-    ctx.soft(len(insc) == 1 and [u(a) for a in insc[0].args] == [u(loop.target), "setmap"], "report:files:insert-every-file", "every (non-pruned) code-base file must be inserted with its own setmap", fl.loc(loop))
-    fresh = [s for s in loop.body if isinstance(s, ast.Assign) and u(s.targets[0]) == "setmap" and u(s.value) == "defaultdict(int)"]
-    ctx.soft(len(fresh) == 1, "report:files:fresh-setmap-per-file", "setmap must be re-created for every file", fl.loc(loop))
+    # table specification (one code-base file F): F is inserted, once, with the setmap built for it - unless pruning is
+    # on and no platform uses any of its lines; nothing else decides whether a file appears
+    cbp_ = fl.params[0]
+    F = f"{cbp_}[0]"
+    n_files = 0
+    for p in _tab(fl, unroll=1):
+        at = _atoms(p, drop_more=False)
+        if not at.get(f"more({cbp_}#L1,0)"):
+            continue
+        ins_ = [e for e in p.effects if e[0] == "call" and str(e[1]).endswith(".insert")]
+        prune = at.get("prune")
+        used = next((v for k, v in at.items() if re.fullmatch(r"set\(\)\.union\(\*.+\)", k)), None)
+        if used is None:
+            used = next((not v for k, v in at.items() if re.fullmatch(r"(0 Eq len\(set\(\)\.union\(\*.+\)\))|(len\(set\(\)\.union\(\*.+\)\) Eq 0)", k)), None)
+        other = [k for k in at if F in k and not k.startswith("more(") and "isinstance(" not in k and ".walk()" not in k and not re.search(r"set\(\)\.union", k)]
+        n_files += 1
+        if other:
+            ctx.violation("report:files:insert-every-file", f"whether a code-base file appears in the tree depends on `{other[0][:80]}`: every file of the code base is listed (pruning apart)", fl.loc())
+            continue
+        if prune and used is None:
+            ctx.violation("report:files:prune", "with --prune, a file must be skipped exactly when the union of the platform sets using its lines is empty: the path does not examine it", fl.loc())
+            continue
+        want = not (prune and used is False)
+        ctx.check(len(ins_) == (1 if want else 0), "report:files:prune" if prune else "report:files:insert-every-file", f"a file is inserted {len(ins_)} time(s) with prune={prune}, used by some platform={used}: it must be inserted once unless pruning is on and nothing uses it", fl.loc())
+        for e in ins_:
+            a0 = _vt(e[2]) if len(e) > 2 else None
+            a1 = _vt(e[3]) if len(e) > 3 else ""
+            ctx.check(a0 == F and a1.startswith("defaultdict(int)"), "report:files:insert-every-file", f"the file must be inserted under its own name with the setmap built for it in this iteration: insert({a0}, {a1[:50]})", fl.loc())
+    if n_files < 8:
+        raise AnalysisError(f"report.files: only {n_files} per-file rows understood")
+    # nothing but the tree is carried from one file to the next (reaching definitions through the loop's back edge)
+    from ..flow import loop_carried as _lc
+
+    carried, cfg_ = _lc(fl, loop)
+    for name in sorted(carried):
+        d_, use_ = carried[name][0]
+        if isinstance(cfg_.nodes[d_].ast, (ast.For,)) or name in ("tree",):
+            continue
+        ctx.violation(f"report:files:fresh-setmap-per-file:{name}", f"`{name}` set at `{u(cfg_.nodes[d_].ast)[:60]}` for one file is still in effect at `{u(cfg_.nodes[use_].ast)[:60]}` for the next file: counts of one file leak into the next one's row", fl.loc(cfg_.nodes[use_].ast))
+    ctx.ok("report:files:fresh-setmap-per-file")
     # printing is pure: _print/_meta_str/write_to/_sloc_str do not write setmap
     for name in ("_print", "write_to"):
         g = ft.find_method(name)
